@@ -334,6 +334,14 @@ class FnV:
         self.selfty = selfty
 
 
+class PyFn:
+    """harness-side callback passed where the Rust code expects a closure (e.g. on_rule_fired)"""
+    __slots__ = ("fn",)
+
+    def __init__(self, fn):
+        self.fn = fn
+
+
 class Opaque:
     """value the interpreter carries around but never inspects (e.g. Arc<dyn Fn>)"""
     __slots__ = ("what",)
@@ -487,10 +495,18 @@ def ite(c, a, b):
             merged = (la[0], ite(c, la[1], lb[1]))
             return Rf(type(a.place)(a.place.scope, a.place.var, a.place.path[:-1] + (merged,)))
         raise Unsupported("ite: merging two different &mut references")
-    if ta in (Clo, FnV, Opaque):
+    if ta in (Clo, FnV, Opaque, PyFn):
         return a
     if ta is Seq:
-        raise Unsupported("ite: merging iterators")
+        if not isinstance(b, Seq):
+            raise Unsupported("ite: iterator vs %r" % (b,))
+        m = max(len(a.items), len(b.items))
+        items = []
+        for i in range(m):
+            pa, xa = a.items[i] if i < len(a.items) else (False, None)
+            pb, xb = b.items[i] if i < len(b.items) else (False, None)
+            items.append((ite(c, pa, pb), ite(c, xa, xb)))
+        return Seq(items)
     raise Unsupported("ite: %r" % (ta,))
 
 
